@@ -27,6 +27,7 @@ from .libmp import (MPZ, MPZ_ZERO, MPZ_ONE, int_types, repr_dps,
 
 from . import rational
 from . import function_docs
+import numbers
 
 new = object.__new__
 
@@ -82,6 +83,11 @@ class _mpf(mpnumeric):
         if isinstance(x, int_types): return from_int(x)
         if isinstance(x, float): return from_float(x)
         if isinstance(x, basestring): return from_str(x, prec, rounding)
+        if isinstance(x, rational.mpq):
+            p, q = x._mpq_
+            return from_rational(p, q, prec, rounding)
+        if isinstance(x, numbers.Rational):
+            return from_rational(int(x.numerator), int(x.denominator), prec, rounding)
         if isinstance(x, cls.context.constant): return x.func(prec, rounding)
         if hasattr(x, '_mpf_'): return x._mpf_
         if hasattr(x, '_mpmath_'):
@@ -102,7 +108,9 @@ class _mpf(mpnumeric):
         if isinstance(x, complex_types): return cls.context.mpc(x)
         if isinstance(x, rational.mpq):
             p, q = x._mpq_
-            return from_rational(p, q, cls.context.prec)
+            return from_rational(p, q, *cls.context._prec_rounding)
+        if isinstance(x, numbers.Rational):
+            return from_rational(int(x.numerator), int(x.denominator), *cls.context._prec_rounding)
         if hasattr(x, '_mpf_'): return x._mpf_
         if hasattr(x, '_mpmath_'):
             t = cls.context.convert(x._mpmath_(*cls.context._prec_rounding))
@@ -652,7 +660,7 @@ class PythonMPContext(object):
         prec, rounding = ctx._prec_rounding
         if isinstance(x, rational.mpq):
             p, q = x._mpq_
-            return ctx.make_mpf(from_rational(p, q, prec))
+            return ctx.make_mpf(from_rational(p, q, prec, rounding))
         if strings and isinstance(x, basestring):
             try:
                 _mpf_ = from_str(x, prec, rounding)
